@@ -126,6 +126,19 @@ def dispatch(sim: Any, op: dict) -> Any:
                 {"line": n.line_no, "zid": n.zid, "body": n.body} for n in page.notes
             ],
         }
+    if kind == "compile_many":
+        from zorg.service.compiler import walk_zorg_page
+
+        from .core import _exc_info
+
+        out = []
+        for path in op["paths"]:
+            try:
+                page = walk_zorg_page(zdir, Path(path))
+                out.append({"has_errors": bool(page.has_errors), "notes": [[n.line_no, n.zid] for n in page.notes]})
+            except Exception as e:
+                out.append({"exc": _exc_info(e)})
+        return out
     if kind == "query":
         from zorg.service import swog
 
